@@ -2523,8 +2523,8 @@ class Matrix:
                 self.b = m[1]
                 self.c = m[2]
                 self.d = m[3]
-                self.e = m[4]
-                self.f = m[5]
+                self.e = copy(m[4])
+                self.f = copy(m[5])
         else:
             self.a = components[0]
             self.b = components[1]
@@ -2626,7 +2626,7 @@ class Matrix:
         )
 
     def __copy__(self):
-        return Matrix(self.a, self.b, self.c, self.d, self.e, self.f)
+        return Matrix(self.a, self.b, self.c, self.d, copy(self.e), copy(self.f))
 
     def __str__(self):
         """
@@ -6642,12 +6642,12 @@ class Rect(Shape):
 
     def property_by_object(self, s):
         Shape.property_by_object(self, s)
-        self.x = s.x
-        self.y = s.y
-        self.width = s.width
-        self.height = s.height
-        self.rx = s.rx
-        self.ry = s.ry
+        self.x = copy(s.x)
+        self.y = copy(s.y)
+        self.width = copy(s.width)
+        self.height = copy(s.height)
+        self.rx = copy(s.rx)
+        self.ry = copy(s.ry)
         self._validate_rect()
 
     def property_by_values(self, values):
@@ -6958,10 +6958,10 @@ class _RoundShape(Shape):
 
     def property_by_object(self, s):
         Shape.property_by_object(self, s)
-        self.cx = s.cx
-        self.cy = s.cy
-        self.rx = s.rx
-        self.ry = s.ry
+        self.cx = copy(s.cx)
+        self.cy = copy(s.cy)
+        self.rx = copy(s.rx)
+        self.ry = copy(s.ry)
 
     def property_by_values(self, values):
         Shape.property_by_values(self, values)
@@ -7362,10 +7362,10 @@ class SimpleLine(Shape):
 
     def property_by_object(self, s):
         Shape.property_by_object(self, s)
-        self.x1 = s.x1
-        self.y1 = s.y1
-        self.x2 = s.x2
-        self.y2 = s.y2
+        self.x1 = copy(s.x1)
+        self.y1 = copy(s.y1)
+        self.x2 = copy(s.x2)
+        self.y2 = copy(s.y2)
 
     def property_by_values(self, values):
         Shape.property_by_values(self, values)
